@@ -170,11 +170,13 @@ pub struct Sx {
     pub nonzero_windows: usize,
     /// run with the FFT64 parameter sets whatever the backend (C10)
     pub fft_params: bool,
+    /// every window has this many bytes whatever the call's own query says (the `ckks_all_ops_with_atk_tmp_bytes` pass of C12)
+    pub fixed: Option<usize>,
 }
 
 impl Sx {
     pub fn new(exact: bool, fill: u64, roomy_bytes: usize) -> Sx {
-        Sx { exact, fill, roomy: pzv_be::dirty_scratch::<B>(roomy_bytes), buf: vec![], off: 0, len: 0, guard_damaged: false, windows: 0, nonzero_windows: 0, fft_params: false }
+        Sx { exact, fill, roomy: pzv_be::dirty_scratch::<B>(roomy_bytes), buf: vec![], off: 0, len: 0, guard_damaged: false, windows: 0, nonzero_windows: 0, fft_params: false, fixed: None }
     }
     fn check_guards(&mut self) {
         if self.buf.is_empty() {
@@ -195,7 +197,10 @@ impl Sx {
             return self.roomy.borrow();
         }
         self.check_guards();
-        let bytes = q();
+        let bytes = match self.fixed {
+            Some(f) => f,
+            None => q(),
+        };
         self.windows += 1;
         if bytes > 0 {
             self.nonzero_windows += 1;
@@ -977,6 +982,26 @@ pub fn run_c12(c: &Case) -> Verdict {
                     return Verdict::fail("ckks|result-depends-on-scratch-size-or-content", format!("backend={B_NAME}: final registers differ between ample scratch and exact garbage-filled scratch windows\ncase={c:?}"));
                 }
                 nonzero = nonzero.max(sx.nonzero_windows);
+            }
+        }
+    }
+    // "the maximum over a set of operations serves all of them": every call of the program on a window of exactly
+    // ckks_all_ops_with_atk_tmp_bytes (largest ciphertext layout, the keys, the largest plaintext precision of the harness)
+    {
+        let mut sx = Sx::new(true, 0x0A11_0B5A_11AA_77EE, cx.scratch_bytes);
+        sx.fixed = Some(cx.scratch_bytes - (1 << 20));
+        match guarded(|| run_program_sx(c, &mut sx)) {
+            Err(p) => {
+                let op = LAST_OP.with(|l| l.get());
+                return Verdict::fail(format!("{op}|all-ops-scratch-panic|{}", panic_sig(&p)), format!("backend={B_NAME} {op}: panicked with a scratch window of exactly ckks_all_ops_with_atk_tmp_bytes ({} bytes; the same program runs with ample scratch): {p}\ncase={c:?}", cx.scratch_bytes - (1 << 20)));
+            }
+            Ok((v, d)) => {
+                if sx.guard_damaged {
+                    return Verdict::fail("ckks|guard-damaged", format!("backend={B_NAME}: bytes outside the all-ops scratch window were modified\ncase={c:?}"));
+                }
+                if matches!(v, Verdict::Fail { .. }) || d != d0 {
+                    return Verdict::fail("ckks|result-depends-on-scratch-size-or-content", format!("backend={B_NAME}: the program gives another result on windows of exactly ckks_all_ops_with_atk_tmp_bytes than on ample scratch\ncase={c:?}"));
+                }
             }
         }
     }
